@@ -397,7 +397,10 @@ def main():
                          # std::find_if(records.begin(), records.end(), pred) == records.end()   says the same
                          or (c[0] == 'bin' and c[1] == '==' and c[3] == rend and c[2][0] == 'call' and c[2][1] == ('id', 'std::find_if') and len(c[2][2]) == 3
                              and c[2][2][:2] == [rbeg, rend] and same_type_pred(c[2][2][2], cv))
-                         or (c[0] == 'un' and c[1] == '!' and c[2][0] == 'call' and c[2][1][0] == 'id' and c[2][1][1] in helpers and c[2][2] == [('id', cv)]))
+                         or (c[0] == 'un' and c[1] == '!' and c[2][0] == 'call' and c[2][1][0] == 'id' and c[2][1][1] in helpers and c[2][2] == [('id', cv)])
+                         # !std::any_of(records.begin(), records.end(), pred)   (also what a local helper lambda is once inlined)
+                         or (c[0] == 'un' and c[1] == '!' and c[2][0] == 'call' and c[2][1] == ('id', 'std::any_of') and len(c[2][2]) == 3
+                             and c[2][2][:2] == [rbeg, rend] and same_type_pred(c[2][2][2], cv)))
                 ok = fresh and nonempty(body2[0][3][1]) == [('expr', ('call', ('member', ('id', 'records'), 'push_back', False), [('initlist', [('un', '&', ('id', cv))])]))]
         if not ok:
             raise mc.Unsupported('the tail no longer publishes exactly one record per distinct class type through Policy::publish_vptrs(records.begin(), records.end())')
